@@ -36,8 +36,10 @@ def build(case):
     out = []
     for i, (lat, lon) in enumerate((case["p0"], case["p1"])):
         yz, xz, rlat, dlat, dlon = cpr.encode(lat, lon, i, False)
-        me = cpr.me_airborne(tc[i], case["ss"], case["saf"], case["alt"][i], case["tbit"], i, yz, xz)
-        f = bits.es_frame(case["df"], case["ca"], case["addr"], me)
+        # every non-position field may differ between the two frames of a pair (they are independent transmissions)
+        pf = lambda k: case[k][i] if isinstance(case[k], list) else case[k]  # noqa
+        me = cpr.me_airborne(tc[i], pf("ss"), pf("saf"), case["alt"][i], pf("tbit"), i, yz, xz)
+        f = bits.es_frame(pf("df"), pf("ca"), case["addr"], me)
         hx = "%028X" % f
         out.append((hx.lower() if case.get("lower") and (case["lower"] >> i) & 1 else hx, rlat))
     return out
@@ -154,9 +156,9 @@ def mkcase(rng, lat, lon, dist_nm=None, order=None):
     base = rng.choice((0, 1446332400, 10, rng.randrange(0, 2**31)))
     gap = rng.choice((1, 2, 5, 9, 0.5, 0.4))
     te, to = (base + gap, base) if o == "e" else (base, base + gap) if o == "o" else (base, base)
-    return {"p0": [lat, lon], "p1": [lat1, lon1], "tc": tc, "ss": rng.randrange(4), "saf": rng.randrange(2),
-            "alt": [rng.fill(12), rng.fill(12)], "tbit": rng.randrange(2), "df": rng.choice((17, 17, 18)),
-            "ca": rng.randrange(8), "addr": rng.fill(24), "te": te, "to": to,
+    return {"p0": [lat, lon], "p1": [lat1, lon1], "tc": tc, "ss": [rng.randrange(4), rng.randrange(4)], "saf": [rng.randrange(2), rng.randrange(2)],
+            "alt": [rng.fill(12), rng.fill(12)], "tbit": [rng.randrange(2), rng.randrange(2)], "df": rng.choice((17, 17, 18)),
+            "ca": [rng.randrange(8), rng.randrange(8)], "addr": rng.fill(24), "te": te, "to": to,
             "ref": rng.choice((None, None, [lat + rng.uniform(-1, 1), lon + rng.uniform(-1, 1)],
                                [rng.uniform(-90, 90), rng.uniform(-180, 180)], [rng.randint(-90, 90), rng.randint(-180, 179)])),
             "dt": rng.random() < 0.15, "api": rng.choice(("position", "airborne_position")),
